@@ -1160,6 +1160,7 @@ fn run_case(case: &Case, tgt: Tgt, mode: &Mode, out: &mut Out, hist: &mut Hist) 
     }
     for p in &case.pipes {
         if p.stages.len() == 2 && case.entries[p.stages[0]].stage.as_deref() == Some("Pixel") { hist.add("variant=stages-reversed"); }
+        if p.before { hist.add("variant=pipeline-before-entry-points"); }
     }
     match compile_raw(&src, tgt, mode) {
         Raw::Err(e) => {
@@ -1527,41 +1528,125 @@ fn mutate(case: &mut Case, rng: &mut Rng, hist: &mut Hist) {
         case.pipes[1].name = n;
         hist.add("variant=pipeline-name-prefix");
     }
-    // files the front end refuses (the model predicts the error class; nothing to judge)
-    if !case.pipes.is_empty() && rng.chance(1, 12) {
-        let k = rng.below(case.pipes.len() as u64) as usize;
+    // the front end looks at a function's attributes only where it is defined: a forward declaration may carry a second
+    // numthreads attribute (accepted file; the report must follow the definition)
+    for e in case.entries.iter_mut() {
+        if e.fd && e.threads.is_some() && e.nt == 0 && rng.chance(1, 4) {
+            e.nt = 4;
+            hist.add("variant=second-numthreads-on-declaration-only");
+        }
+    }
+    // an overload of an entry point defined after every Pipeline block (the entry lookup sees the registry of its moment)
+    if !case.entries.is_empty() && rng.chance(1, 16) {
+        let k = rng.below(case.entries.len() as u64) as usize;
+        case.entries[k].lo = true;
+        hist.add("variant=late-overload-of-entry");
+    }
+    // files the front end refuses (the model predicts the error class; nothing to judge): one error, or -- where the
+    // order in which the front end meets them decides the answer -- two or three independent ones, at random places of
+    // the file, in both layouts, with and without forward declarations
+    if !case.pipes.is_empty() && rng.chance(1, 6) {
+        let n_err = if rng.chance(1, 3) { 1 } else { 2 + rng.below(2) as usize };
         hist.add("variant=front-end-error");
-        match rng.below(7) {
-            0 if case.pipes.len() >= 2 => {
-                let n = case.pipes[0].name.clone();
-                case.pipes[k.max(1)].name = n;
+        hist.add(&format!("front-end-errors={}", n_err));
+        if n_err > 1 && rng.chance(1, 2) {
+            case.layout = 1 - case.layout.min(1);
+        }
+        let mut kinds: Vec<String> = Vec::new();
+        for _ in 0..n_err {
+            let k = rng.below(case.pipes.len() as u64) as usize;
+            let kind = inject_front_error(case, rng, k);
+            if !kind.is_empty() {
+                hist.add(&format!("front-end-error-kind={}", kind));
+                kinds.push(kind.to_string());
             }
-            1 if !case.helpers.is_empty() => {
-                let e = case.pipes[k].stages[0];
-                case.entries[e].name = case.helpers[0].name.clone();
-            }
-            2 => {
-                // a compute stage next to another stage
-                if let Some(c) = (0..case.entries.len()).find(|e| case.entries[*e].stage.as_deref() == Some("Compute")) {
-                    let first = case.pipes[k].stages[0];
-                    if case.entries[first].stage.as_deref() != Some("Compute") || case.pipes[k].stages.len() > 1 {
-                        case.pipes[k].stages.push(c);
-                    } else if let Some(o) = (0..case.entries.len()).find(|e| matches!(case.entries[*e].stage.as_deref(), Some("Pixel") | Some("Vertex"))) {
-                        case.pipes[k].stages.push(o);
-                    }
+        }
+        if kinds.len() >= 2 {
+            hist.add("variant=several-front-end-errors");
+        }
+    }
+}
+
+/// make the file fail in the front end at pipeline `k` (or at a function / resource it picks); returns what was done
+fn inject_front_error(case: &mut Case, rng: &mut Rng, k: usize) -> &'static str {
+    match rng.below(10) {
+        0 if case.pipes.len() >= 2 => {
+            // two blocks of one name: the later one is refused
+            let j = if k == 0 { 1 } else { rng.below(k as u64) as usize };
+            let n = case.pipes[j.min(k)].name.clone();
+            case.pipes[j.max(k)].name = n;
+            "pipeline-name-twice"
+        }
+        1 if !case.helpers.is_empty() && !case.pipes[k].stages.is_empty() => {
+            // the entry point shares its name with a helper
+            let e = case.pipes[k].stages[0];
+            case.entries[e].name = case.helpers[0].name.clone();
+            "entry-name-of-a-helper"
+        }
+        2 if !case.pipes[k].stages.is_empty() => {
+            // a compute stage next to another stage
+            let first = case.pipes[k].stages[0];
+            if let Some(c) = (0..case.entries.len()).find(|e| case.entries[*e].stage.as_deref() == Some("Compute")) {
+                if case.entries[first].stage.as_deref() != Some("Compute") || case.pipes[k].stages.len() > 1 {
+                    case.pipes[k].stages.push(c);
+                    return "compute-next-to-graphics";
+                } else if let Some(o) = (0..case.entries.len()).find(|e| matches!(case.entries[*e].stage.as_deref(), Some("Pixel") | Some("Vertex"))) {
+                    case.pipes[k].stages.push(o);
+                    return "compute-next-to-graphics";
                 }
             }
-            3 => {
-                let first = case.pipes[k].stages[0];
-                case.pipes[k].stages.push(first);
+            ""
+        }
+        3 if !case.pipes[k].stages.is_empty() => {
+            let first = case.pipes[k].stages[0];
+            case.pipes[k].stages.push(first);
+            "stage-property-twice"
+        }
+        4 => {
+            // graphics state: an error on a compute pipeline only
+            case.pipes[k].gstate = 1 + rng.below(500) as u32;
+            "graphics-state"
+        }
+        5 => {
+            case.pipes[k].stages.clear();
+            "no-entry-point"
+        }
+        6 => {
+            if let Some(r) = case.res.iter_mut().find(|r| r.ss) {
+                r.vk_index = Some(3);
+                "static-sampler-index"
+            } else {
+                ""
             }
-            4 => case.pipes[k].gstate = 1 + rng.below(500) as u32,
-            5 => case.pipes[k].stages.clear(),
-            _ => {
-                if let Some(r) = case.res.iter_mut().find(|r| r.ss) {
-                    r.vk_index = Some(3);
+        }
+        7 | 8 => {
+            // a second numthreads attribute on a definition (and on the forward declaration, where it does not count):
+            // an entry point of this pipeline, or any
+            let cands: Vec<usize> = if !case.pipes[k].stages.is_empty() && rng.chance(2, 3) {
+                case.pipes[k].stages.clone()
+            } else {
+                (0..case.entries.len()).collect()
+            };
+            let cands: Vec<usize> = cands.into_iter().filter(|e| case.entries[*e].threads.is_some()).collect();
+            if cands.is_empty() {
+                return "";
+            }
+            let e = *rng.pick(&cands);
+            case.entries[e].nt = 3;
+            if rng.chance(1, 2) {
+                case.entries[e].fd = true;
+            }
+            "second-numthreads"
+        }
+        _ => {
+            // the block comes before the definitions of its entry points (unknown, or declared only)
+            case.pipes[k].before = true;
+            if let Some(e) = case.pipes[k].stages.first().copied() {
+                if rng.chance(1, 2) {
+                    case.entries[e].fd = true;
                 }
             }
+            "block-before-entry-points"
         }
     }
 }
@@ -1660,7 +1745,7 @@ pub fn run(args: &Args, out: &mut Out) {
                         res: vec![XRes::plain("g_t", "Texture2D")],
                         helpers: vec![],
                         entries: vec![XFn { name: "cs_0".into(), stage: Some("Compute".into()), uses: vec![(0, ' ')], threads: Some((8, 4, 1)), ..Default::default() }],
-                        pipes: vec![XPipe { name: "P0".into(), dflt: None, stages: vec![0], gstate: 0, dexpr: false }],
+                        pipes: vec![XPipe { name: "P0".into(), dflt: None, stages: vec![0], gstate: 0, dexpr: false, before: false }],
                     };
                     if role == 0 {
                         case.entries[0].name = name.clone();
